@@ -60,23 +60,24 @@ type c09Part struct {
 }
 
 type c09Scenario struct {
-	Enzyme    string          `json:"enzyme"`
-	Entry     string          `json:"entry"`
-	Junctions []string        `json:"junction_overhangs"`
-	Alts      []int           `json:"alternatives_per_slot"`
-	Ring2     []string        `json:"second_ring_overhangs,omitempty"`
-	Decoys    []string        `json:"decoys,omitempty"`
-	Parts     []c09Part       `json:"parts,omitempty"`
-	Frags     []c09Frag       `json:"fragments"`
-	Order     []int           `json:"input_order"`
-	Expected  []string        `json:"expected_rings_canonical"`
-	Observed  []string        `json:"observed_rings_canonical,omitempty"`
-	Partial   int             `json:"junction_simple_partial_assemblies"`
-	Budget    int             `json:"step_budget"`
-	Work      int             `json:"letters_in_all_partial_assemblies"`
-	TaskCap   int             `json:"goroutine_cap"`
-	End       string          `json:"scheduler_end,omitempty"`
-	Panics    []core.PanicRec `json:"panics,omitempty"`
+	Enzyme       string          `json:"enzyme"`
+	Entry        string          `json:"entry"`
+	Junctions    []string        `json:"junction_overhangs"`
+	Alts         []int           `json:"alternatives_per_slot"`
+	Ring2        []string        `json:"second_ring_overhangs,omitempty"`
+	Decoys       []string        `json:"decoys,omitempty"`
+	Parts        []c09Part       `json:"parts,omitempty"`
+	Frags        []c09Frag       `json:"fragments"`
+	Order        []int           `json:"input_order"`
+	Expected     []string        `json:"expected_rings_canonical"`
+	Observed     []string        `json:"observed_rings_canonical,omitempty"`
+	Partial      int             `json:"junction_simple_partial_assemblies"`
+	SecondCaller string          `json:"second_concurrent_caller,omitempty"`
+	Budget       int             `json:"step_budget"`
+	Work         int             `json:"letters_in_all_partial_assemblies"`
+	TaskCap      int             `json:"goroutine_cap"`
+	End          string          `json:"scheduler_end,omitempty"`
+	Panics       []core.PanicRec `json:"panics,omitempty"`
 }
 
 func isPal(s string) bool { return rc(s) == s }
@@ -487,12 +488,40 @@ func (c09) Run(t *testing.T, tape *core.Tape, rcx *RunCtx) *core.Result {
 	var out []clone.Part
 	var callErr error
 	var sim *core.Sim
+	// a second, unrelated reaction run by another caller at the same time (12 % of the
+	// runs): two or three fragments that close exactly one ring. Two ligations in one
+	// process share whatever the packages keep at package level (buffers, memos, pools).
+	var fragsB []clone.Fragment
+	var outB []clone.Part
+	wantB := ""
+	if tape.Chance(12) {
+		ovB := []string{"AAGC", "TTCA", "GGTA"}
+		nB := 2 + tape.Draw(2)
+		ring := ""
+		for i := 0; i < nB; i++ {
+			f := clone.Fragment{Sequence: randDNA(tape, 15+tape.Draw(120)), ForwardOverhang: ovB[i], ReverseOverhang: ovB[(i+1)%nB]}
+			ring += f.ForwardOverhang + f.Sequence
+			if tape.Chance(40) {
+				// supplied on the other strand
+				f = clone.Fragment{Sequence: rc(f.Sequence), ForwardOverhang: rc(f.ReverseOverhang), ReverseOverhang: rc(f.ForwardOverhang)}
+			}
+			fragsB = append(fragsB, f)
+		}
+		wantB = canonCircular(ring)
+		sc.SecondCaller = fmt.Sprintf("CircularLigate of %d fragments closing one ring of %d letters", nB, len(ring))
+		sc.Budget += 50*20*(nB+10) + 100*20*len(ring)
+		sc.TaskCap += 250
+		res.Count("probe_second_ligation_at_the_same_time", 1)
+	}
 	leak, pv := core.Bubble(t, func() {
 		sim = core.NewSim(tape)
 		sim.Record = rcx.Record
 		sim.TimeJitter = true
 		sim.MaxSteps = sc.Budget
 		sim.MaxTasks = sc.TaskCap
+		if wantB != "" {
+			sim.Go(func() { outB = clone.CircularLigate(fragsB) })
+		}
 		sim.Go(func() {
 			if direct {
 				in := make([]clone.Fragment, 0, nin)
@@ -578,6 +607,15 @@ func (c09) Run(t *testing.T, tape *core.Tape, rcx *RunCtx) *core.Result {
 			case len(missing) > 0:
 				res.Class, res.Detail = violation("missing-ring"), fmt.Sprintf("%d of %d expected rings missing, e.g. %s", len(missing), len(expected), missing[0])
 			}
+		}
+	}
+	if res.Class == "" && wantB != "" {
+		if len(outB) != 1 || canonCircular(outB[0].Sequence) != wantB {
+			got := []string{}
+			for _, p := range outB {
+				got = append(got, canonCircular(p.Sequence))
+			}
+			res.Class, res.Detail = violation("concurrent-ligation-interference"), fmt.Sprintf("a second reaction ligated at the same time (one ring expected: %s) returned %d constructs: %v", wantB, len(outB), got)
 		}
 	}
 	if rcx.Record {
